@@ -137,6 +137,16 @@ CHECKS["C19"] = (MC,
     "Trusted: the mapping of abstract sites to files/values; jupyter_core's order of the non-cwd directories; parser capture for the git "
     "tools.", "DESIGN.md §5 C19")
 
+CHECKS["C20"] = (MC,
+    "TLC enumeration of request sequences of WebApi.tla per start-up mode, replayed against the real Tornado application (status class, "
+    "digests of the whole server directory, shutdown) + history independence of answers + TLC validation (DiffTrace.tla) of /api/diff "
+    "answers + comparison of /api/merge answers with the library",
+    "The API is a state machine over (disk, running) per start-up mode; TLC checks confinement, store gating, close gating, errors-change-"
+    "nothing and history independence on the model and enumerates all sequences of 2 (and 3) requests over 17 request kinds (valid, "
+    "malformed JSON, missing keys, non-notebook / missing files, extra path fields in the store body, unknown route). Each sequence runs "
+    "against the real handlers; after every request the status class and every file of the server directory are compared with the model.",
+    "Trusted: stub jupyter_server/jinja2 (no auth/XSRF); IOLoop.stop interception; content ids by byte/JSON comparison.", "DESIGN.md §5 C20")
+
 NOT_YET = {}
 
 PROPS = [json.loads(l)["id"] for l in open(os.path.join(VERIF, "properties.jsonl"))]
